@@ -58,7 +58,7 @@ def main():
             if i < len(forced):
                 code, dec, defs, nm, three = forced[i]
                 a = {'code': code, 'decoder': dec, '_defs': defs, 'sizes': '2x2x2' if three else '2x2,3x3', 'bias': rng.choice('XYZ'),
-                     'eta': rng.choice(['0.5', '3,inf', '10', '1,1.5', '0.25,0.5,0.75']), 'prob': rng.choice(['0.1', '0.05,0.15']), 'deformation': nm,
+                     'eta': rng.choice(['0.5', '3,inf', '10', '1,1.5', '0.25,0.5,0.75', '0,1']), 'prob': rng.choice(['0.1', '0.05,0.15']), 'deformation': nm,
                      'method': 'direct', 'label': None}
             elif prev is not None and rng.random() < 0.45:
                 a = dict(prev)
@@ -69,7 +69,7 @@ def main():
                 three = rng.random() < 0.4
                 code, dec, defs = rng.choice(codes3 if three else codes2)
                 sizes = rng.sample(['2x2x2', '3x3x3', '2x3x2', '3x2x2', '2x2x3'] if three else ['2x2', '3x3', '2x3', '3x2', '4x4', '3', '2'], rng.randint(1, 3))
-                etas = rng.sample(['0.5', '1', '3', '10', '30', '100', 'inf', '2.5', '1.5', '0.25', '0.75', '2', '10.5'], rng.randint(1, 5))
+                etas = rng.sample(['0.5', '1', '3', '10', '30', '100', 'inf', '2.5', '1.5', '0.25', '0.75', '2', '10.5', '0'], rng.randint(1, 5))
                 a = {'code': code, 'decoder': dec, '_defs': defs, 'sizes': ','.join(sizes), 'bias': rng.choice('XYZ'), 'eta': ','.join(etas),
                      'prob': rng.choice(['0.1', '0:0.3:0.1', '0.05,0.15', '0:0.07:0.005', '0.01:0.05:0.01', '0.2:0.5:0.15']),
                      'deformation': rng.choice(defs) if defs and rng.random() < 0.5 else None,
